@@ -68,7 +68,7 @@ func TestVerif_C08_Fold(t *testing.T) {
 	defer tr.Close()
 	all := c08Orbits()
 	// notable orbits always; the rest sampled in the quick tier
-	notable := map[rune]bool{'k': true, 's': true, 'i': true, 'ß': true, 'σ': true, 'µ': true, 'ǆ': true, 'θ': true, 'ι': true, 'ω': true, 'å': true, 'ᲀ': true, 'ꙋ': true}
+	notable := map[rune]bool{'Ⱥ': true, 'ɐ': true, 'k': true, 's': true, 'i': true, 'ß': true, 'σ': true, 'µ': true, 'ǆ': true, 'θ': true, 'ι': true, 'ω': true, 'å': true, 'ᲀ': true, 'ꙋ': true}
 	var pick [][]rune
 	rng := verifkit.Rng(8)
 	frac := verifkit.EnvInt("VERIF_ORBIT_PERCENT", verifkit.Pick(8, 100))
